@@ -240,11 +240,14 @@ func c15Run(c c15Case) (out Outcome) {
 	refPlain, refSt, refErr := wire.ReadBlocks(damaged)
 	// skip streams that declare an absurd block length: they only cost memory
 	if refSt.MaxDeclaredBlock > 64<<20 {
-		out.Labels = append(out.Labels, "excluded_oversized")
-		return out
+		out.Labels = append(out.Labels, "declares_oversized_block")
 	}
 	stage = "client-decompress-damaged"
+	a0 := totalAlloc()
 	got, err := region.VerifDecompressCellblocks(codec, damaged)
+	if d := totalAlloc() - a0; d > allocBudget(len(damaged)) {
+		return viol("alloc-bomb@decompress", "decompressing a %s-damaged stream of %d bytes allocated %d MiB: a length declared inside the data is trusted before it is checked against the data", c.Damage, len(damaged), d>>20)
+	}
 	switch {
 	case refErr != nil && err == nil:
 		return viol("damaged-stream-accepted", "client returned %d bytes for a %s-damaged stream (pos %d) that the independent reader rejects: %v", len(got), c.Damage, pos, refErr)
@@ -348,10 +351,12 @@ func FuzzC15Decompress(f *testing.F) {
 	f.Add([]byte{0xff, 0xff, 0xff, 0xff, 0, 0, 0, 0})
 	f.Fuzz(func(t *testing.T, b []byte) {
 		ref, st, refErr := wire.ReadBlocks(b)
-		if st.MaxDeclaredBlock > 64<<20 {
-			t.Skip()
-		}
+		_ = st
+		a0 := totalAlloc()
 		got, err := region.VerifDecompressCellblocks(codec, b)
+		if d := totalAlloc() - a0; d > allocBudget(len(b)) {
+			t.Fatalf("VERIFSIG=alloc-bomb@decompress %d bytes of input allocated %d MiB", len(b), d>>20)
+		}
 		if refErr != nil && err == nil {
 			t.Fatalf("VERIFSIG=damaged-stream-accepted client accepts %q, reference: %v", b, refErr)
 		}
